@@ -625,6 +625,32 @@ Proof.
   - exists (Z.to_nat start), (Z.to_nat cnt). repeat split.
 Qed.
 
+(* a pickled copy satisfies the invariant, shows the same samples, and has neither offset nor slack *)
+Lemma repickle_good o : good o -> good (repickle o).
+Proof.
+  intros (A & B & C & D). unfold good, repickle, cap in *. cbn [o_start o_count o_rows o_ncols o_timing o_kind].
+  repeat split.
+  - rewrite firstn_length, skipn_length. lia.
+  - apply Forall_firstn, Forall_skipn. exact B.
+  - exact C.
+  - exact D.
+Qed.
+
+Lemma repickle_view o : (o_start o + o_count o <= cap o)%nat -> view (repickle o) = view o /\ cap (repickle o) = o_count o.
+Proof.
+  intro H. unfold view, repickle, cap in *. cbn [o_start o_count o_rows]. cbn [skipn].
+  split; [apply firstn_all2; rewrite firstn_length, skipn_length; lia | rewrite firstn_length, skipn_length; lia].
+Qed.
+
+Lemma repickle_spec o : good o ->
+  good (repickle o) /\ view (repickle o) = view o /\ o_timing (repickle o) = o_timing o /\ o_count (repickle o) = o_count o
+  /\ o_props (repickle o) = o_props o /\ o_start (repickle o) = 0%nat /\ cap (repickle o) = o_count o.
+Proof.
+  intro G. pose proof G as (A & _). destruct (repickle_view o A) as [V C].
+  split; [apply repickle_good; exact G|]. split; [exact V|]. split; [reflexivity|]. split; [reflexivity|].
+  split; [reflexivity|]. split; [reflexivity|exact C].
+Qed.
+
 (* ---------- the pool ---------- *)
 Definition pool_good (p : pool) : Prop := Forall (fun o => good o /\ cols_ok o) p.
 
@@ -636,7 +662,7 @@ Definition op_wf (p : pool) (op : wop) : Prop :=
   | PAppendArr i a _ => (i < length p)%nat /\ arr_ok (o_kind (pget p i)) a
   | PAppendWfm i srcs _ => (i < length p)%nat /\ Forall (fun j => (j < length p)%nat /\ o_kind (pget p j) = o_kind (pget p i)) srcs
   | PSetTiming i (Some t) => (i < length p)%nat /\ timing_wf t
-  | PSetCap i _ | PSetCount i _ | PSetTiming i None | PSetScale i _ | PGet i _ _ => (i < length p)%nat
+  | PSetCap i _ | PSetCount i _ | PSetTiming i None | PSetScale i _ | PGet i _ _ | PRepickle i => (i < length p)%nat
   | PWrite i r c _ => (i < length p)%nat /\ (r < o_count (pget p i))%nat /\ (c < o_ncols (pget p i))%nat
   end.
 
@@ -714,6 +740,8 @@ Proof.
   - destruct W as (Wi & Wr & Wc). destruct (pget_good _ _ G Wi) as [Go Co]. intro H. inversion H. subst.
     apply pool_set_good; [exact G|]. split; [apply write_view_good; assumption|exact Co].
   - intro H. inversion H. subst. exact G.
+  - destruct (pget_good _ _ G W) as [Go Co]. intro H. inversion H. subst.
+    apply pool_set_good; [exact G|]. split; [apply repickle_good; exact Go|exact Co].
 Qed.
 
 (* ---------- histories ---------- *)
